@@ -149,6 +149,7 @@ func c15NonTrivial(x *m.XR) bool {
 }
 
 func TestC15(t *testing.T) {
+	defer harness.Uncaught(t)
 	maxBlocks := 8
 	if harness.Thorough() {
 		maxBlocks = 40
